@@ -46,3 +46,19 @@ MUTANTS = [
  dict(id="C14-system-members-stale", property="C14", file=GO, old="            if self.name in system._used_groups:\n                system.invalidate_members()\n", new="            pass\n", expect="memo=System:_computed_members|dep=Group-members"),
  dict(id="C14-none-not-default", property="C14", file=SR, old="        if system is None:\n            system = self._default_system_name\n", new="", expect="none-means-default-system"),
 ]
+MUTANTS += [
+ dict(id="C14-bare-rule-not-inverted", property="C14", file=SO, old="                base_unit_names[old_unit] = {new_unit: 1 / value}", new="                base_unit_names[old_unit] = {new_unit: value}", expect="bare-rule-inverted"),
+ dict(id="C14-old-new-rule-old-formula", property="C14", file=SO, old="                    other_unit: -value / old_exponent", new="                    other_unit: -1 / value", expect="other-units-exponent-inverted"),
+ dict(id="C14-invalidate-iterative-no-systems", property="C14", file=GO, old="""        self._computed_members = None
+        d = self._REGISTRY._groups
+        for name in self._used_by:
+            d[name].invalidate_members()
+""", new="""        self._computed_members = None
+        d = self._REGISTRY._groups
+        pending = set(self._used_by)
+        while pending:
+            g = d[pending.pop()]
+            g._computed_members = None
+            pending |= g._used_by
+""", expect="dep=used-group-members"),
+]
